@@ -14,19 +14,23 @@ PROP = {'engine': 'c09',
          'before / between / after the writes (caches the stable value in the shared trie in place), SetStableBlock of a random unconfirmed '
          'block (several rounds per history, building continues on the new stable block), full Get sweeps; 16..24 addresses that share a '
          'long hex prefix and differ in the last nibbles (plus a few that differ early). After every operation: every live view x every '
-         'address == model (1/3 of the histories sweep with the caching Get, 2/3 with a non-caching trie Find + disk fall-back so that cache '
-         'states stay diverse), IsExistByHash / GetBlockByHash / IterateUnConfirms / GetUnConfirmByHeight / LoadLatestBlock == model tree; after '
+         'address == model (side-effect-free sweep: trie Find, else disk; 1/3 of the databases additionally sweep with the caching Get after every operation, in '
+         'the others cache states stay diverse), IsExistByHash / GetBlockByHash / IterateUnConfirms / GetUnConfirmByHeight / LoadLatestBlock == model tree; after '
          'SetStableBlock: returned pruned set and store lookups == exactly the non-descendants, descendants\' views unchanged, GetAccount == '
-         'stable view right away and after the write-behind queue is idle, GetBlockByHeight == stable path. distinct = distinct sequence of '
+         'stable view right away and after the write-behind queue is idle, GetBlockByHeight == stable path. A view-read-differs class names what was '
+         'read (value of a non-ancestor = sibling-leak, of a farther ancestor = stale-ancestor, own write missing = lost-write) and what happened '
+         'since all views were last seen right (a Get that fell back to disk and cached in place, or the kind of the operation). Hand-written '
+         'histories incl. the regression cases of known defects run in every tier and seed. distinct = distinct sequence of '
          '(block depth.siblings | write | read | stabilise depth:pruned:kept); non-trivial = two fork branches (neither an ancestor of the '
          'other) wrote a common address and at least one stabilisation after the genesis',
  'assumptions': ['the store is used the way the node uses it: a block\'s account writes happen after SetBlock and before the block gets '
                  'children, once per address with dye = the block\'s height; reads may go through any live view at any time',
                  'views of blocks that are no longer live (pruned, or stable but older than the stable block) are not observed',
+                 'a restart is Close + NewChainDataBase on the same directory in the same process after the write-behind queue went idle',
                  'single-threaded driver (concurrent access to the unconfirmed tree is C19)'],
  'min_cases': {'quick': 300, 'thorough': 10000},
  'min_stats': {'quick': {'view_reads_compared': 1000000, 'stabilisations': 600, 'pruned_blocks_checked': 500,
-                         'persisted_reads_compared': 20000, 'nontrivial_histories': 200, 'get_reads_that_cached_the_stable_value': 1000, 'reopens': 200},
+                         'persisted_reads_compared': 20000, 'nontrivial_histories': 200, 'get_reads_that_cached_the_stable_value': 800, 'reopens': 200},
                'thorough': {'view_reads_compared': 30000000, 'stabilisations': 20000, 'pruned_blocks_checked': 15000,
                             'persisted_reads_compared': 600000, 'nontrivial_histories': 6000, 'get_reads_that_cached_the_stable_value': 30000}},
  'timeout_s': {'quick': 600, 'thorough': 3600}}
